@@ -127,6 +127,35 @@ def _only_const_indexed(name, n, stmts):
     return True
 
 
+class _CallSubst(ast.NodeTransformer):
+    """`f(args)` -> `<callee>(args)` for the variable f"""
+
+    def __init__(self, name, callee):
+        self.name, self.callee = name, callee
+
+    def visit_Call(self, node):
+        self.generic_visit(node)
+        if isinstance(node.func, ast.Name) and node.func.id == self.name:
+            import copy
+            return ast.copy_location(ast.Call(func=copy.deepcopy(self.callee), args=node.args, keywords=node.keywords), node)
+        return node
+
+
+def _only_called(name, stmts):
+    """every later use of `name` is as the callee of a call, and it is never re-bound"""
+    for st in stmts:
+        parents = {}
+        for par in ast.walk(st):
+            for ch in ast.iter_child_nodes(par):
+                parents[ch] = par
+        for nd in ast.walk(st):
+            if isinstance(nd, ast.Name) and nd.id == name:
+                par = parents.get(nd)
+                if not (isinstance(nd.ctx, ast.Load) and isinstance(par, ast.Call) and par.func is nd):
+                    return False
+    return True
+
+
 class _Subst(ast.NodeTransformer):
     """rename / substitute the names of an inlined helper"""
 
@@ -398,6 +427,20 @@ class T13(P.Translator2M):
                     h = self._helper(st.value)
                     if h is not None:
                         return self.block(self._inline(st.value, h, st.targets[0].id) + list(rest), scope, ind, ctx)
+            # ---- `f = F1 if c else F2` (a function chosen by a condition, later only called)
+            #      =  if c: <rest with F1 for f> else: <rest with F2 for f>
+            if (isinstance(st, ast.Assign) and len(st.targets) == 1 and isinstance(st.targets[0], ast.Name)
+                    and isinstance(st.value, ast.IfExp) and not self._has_stmt_rule(st) and ctx.brk is None):
+                f = st.targets[0].id
+                arms = (st.value.body, st.value.orelse)
+
+                def callee(n):
+                    return (isinstance(n, ast.Attribute) and isinstance(n.value, ast.Name) and n.value.id not in scope) or \
+                        (isinstance(n, ast.Name) and n.id not in scope and n.id not in self.r.names)
+                if all(callee(a) for a in arms) and rest and _only_called(f, rest):
+                    bodies = [[ast.fix_missing_locations(_CallSubst(f, a).visit(copy.deepcopy(r))) for r in rest] for a in arms]
+                    node = ast.fix_missing_locations(ast.If(test=st.value.test, body=bodies[0], orelse=bodies[1]))
+                    return self.block([node], scope, ind, ctx)
             # ---- `x = A if c else B` whose arms are aliases  =  if c: x = A else: x = B
             if (isinstance(st, ast.Assign) and len(st.targets) == 1 and isinstance(st.targets[0], ast.Name)
                     and isinstance(st.value, ast.IfExp) and not self._has_stmt_rule(st)):
@@ -643,6 +686,8 @@ def items():
                             ("$p[:, None, :] + $c", "(Np.outerAdd {p} {c})"),
                             ("$p[:, :, None, :] + $o", "(Np.outerAdd3 {p} {o})"),
                             ("$p.reshape([-1, 2])", "(Np.flatPoints {p})"),
+                            ("$p.reshape(-1, 2)", "(Np.flatPoints {p})"),
+                            ("$p.transpose(3, 4, 0, 1, 2)", "(Np.transpose34012 cval {p})"),
                             ("scipy_interpolation(pixels, $p, order=order, mode=mode, cval=cval)",
                              "(Np.sampleAll (sampler order mode) pixels {p})"),
                             ("$p.reshape($a, $b, $c, $d, $e)", "Np.reshapeE {p} [{a}, {b}, {c}, {d}, {e}]", "bind"),
